@@ -81,6 +81,8 @@ def gen_program(rng, profile):
                 c['key'] = f'k{rng.randrange(nk)}'
             elif mode == 'plain':
                 c['plain'] = rng.randrange(nk)      # arg is a small int, key defaults to str(arg)
+        if base == 'c11' and rng.random() < 0.3:
+            c['repeat'] = rng.randint(1, 2)         # call again right after being answered, no suspension in between
         if base == 'c09' and rng.random() < 0.4:
             if rng.random() < 0.6:
                 c['cancel_after'] = _w(rng, [(0.0, 3), (bt / 2, 2), (bt + E, 2), (bt + 0.125, 2), (bt + 0.375, 2), (2.0, 1)])
@@ -93,7 +95,8 @@ def gen_program(rng, profile):
     prog['batch_dur'] = [_w(rng, durs) for _ in range(4)]
     prog['item_dur'] = [_w(rng, [(0.0, 5), (0.125, 3), (0.03125, 2)]) for _ in range(4)]
     if base in ('c10', 'c11'):
-        behs = [('value', 8), ('exc', 2)] if base == 'c11' else [('value', 1)]
+        # C10: failing batch functions are not anomalies of the protocol: the limits must survive them
+        behs = [('value', 8), ('exc', 2)] if base == 'c11' else [('value', 8), ('exc', 1), ('omit', 1), ('raise', 2)]
     else:
         behs = [('value', 10), ('none', 1), ('zero', 1), ('empty', 1), ('cls', 1), ('exc', 4), ('exc_sub', 2),
                 ('omit', 3), ('raise', 3), ('twice', 1), ('unknown', 1)]
@@ -139,6 +142,7 @@ class Call:
         self.t_done = None
         self.cancel_requested = False
         self.cancel_t = None
+        self.chained_after = None       # the Call whose answer this call immediately followed (same task)
 
 
 class BatcherWorld:
@@ -284,6 +288,28 @@ class BatcherWorld:
             C.t_done = sch.clock
             if S.CUR is sch:
                 sch.log('ret', C.i, C.outcome[0] if C.outcome else None)
+        # chained repeats: the same task asks again at once, with no suspension in between
+        prev = C
+        for r in range(spec.get('repeat', 0)):
+            D = Call(1000 * (r + 1) + C.i, dict(spec, repeat=0))
+            D.arg = ('a', D.i) if 'plain' not in spec else C.arg
+            D.chained_after = prev
+            D.task = C.task
+            D.t_call = sch.clock
+            self.calls.append(D)
+            self.arrivals.append(D)
+            sch.log('call', D.i, D.key)
+            try:
+                D.outcome = ('value', await self.call(D.arg, **kw))
+            except asyncio.CancelledError as e:
+                D.outcome = ('cancelled', e)
+            except GeneratorExit:
+                raise
+            except BaseException as e:  # noqa
+                D.outcome = ('exc', e)
+            D.t_done = sch.clock
+            sch.log('ret', D.i, D.outcome[0])
+            prev = D
 
     def do_cancel(self, C):
         if C.task.done():
@@ -311,7 +337,7 @@ class BatcherWorld:
         for m in p.get('mutate', ()):
             loop.call_at(m['at'], self.mutate, m)
         tasks = []
-        for C in self.calls:
+        for C in list(self.calls):
             if C.at > loop.time():
                 await asyncio.sleep(C.at - loop.time())
             tasks.append(loop.create_task(self.caller(C)))
@@ -544,6 +570,8 @@ class BatcherWorld:
                             status = 'tie'
                         else:
                             status = 'new'
+                    elif C.t_call == done and _chain_reaches(C, origin):
+                        status = 'new'      # issued by the answered caller itself, after its answer: not a tie
                     else:
                         status = 'tie' if C.t_call == done else 'new'
                 if status == 'tie':
@@ -571,6 +599,15 @@ class BatcherWorld:
                 self.viol('C11', 'batcher.work_count', 'number of batch items for a key differs from the number of retention windows',
                           f'key {key}: {len(items)} item(s) in batches {[B.b for B, _ in items]}, expected {n_origins}',
                           retention_positive=R > 0)
+
+
+def _chain_reaches(C, origin):
+    x = C.chained_after
+    while x is not None:
+        if x is origin:
+            return True
+        x = x.chained_after
+    return False
 
 
 def _is_small(o):
